@@ -226,6 +226,13 @@ def builtin_random_and_free(tier, rng, rep):
 
             def body():
                 for length in range(0, 5):
+                    if length == 2:
+                        # history: an automaton some other caller obtained from free_automaton earlier and edited in place
+                        # (FSA is mutable) is that caller's own object; later enumerations do not depend on it
+                        for form in (list(gens), tuple(gens), "".join(gens)):
+                            other = fsa.free_automaton(form)
+                            other.delete_vertex(gens[0])
+                            inp["history"] = "free_automaton(gens) obtained and delete_vertex(%r) applied to it before the enumeration of lengths >= 2" % gens[0]
                     for maxlen in (True, False):
                         res = rp.freely_reduced_elements(length, maxlen=maxlen, with_words=True)
                         ms, ws = res
